@@ -113,7 +113,8 @@ namespace AIToolbox::POMDP {
     std::tuple<double, VList> BlindStrategies::operator()(const M & m, const bool fasterConvergence) {
         const MDP::QFunction ir = [&]{
             if constexpr(MDP::IsModelEigen<M>) return m.getRewardFunction().transpose();
-            else return MDP::computeImmediateRewards(m).transpose();
+            // Materialize: transpose() alone would return a view of a temporary.
+            else return MDP::QFunction(MDP::computeImmediateRewards(m).transpose());
         }();
         // This function produces a very simple lower bound for the POMDP. The
         // bound for each action is computed assuming to take the same action forever
